@@ -1,10 +1,10 @@
 package props
 
 import (
-	"os"
 	"fmt"
 	"go/token"
 	"go/types"
+	"os"
 
 	"gedverif/internal/e1"
 	"gedverif/internal/load"
